@@ -13,7 +13,7 @@ func init() {
 				"3 programs (static/instance namesakes, the same class name in two modules, overloaded builtin use) x 12 output modes (-i, --suggest, --hover, --llm-nav, --llm-nav --target, --llm-define [--class], --llm-class, --extends, --define, diagnostics, --llm-nav --all), each analysed twice in one path; every range over TSignatures / ClassInheritanceMap / MethodCallPoint / MethodCalleePoint / TSignatureDocument iterates forward or backward (one solver-chosen schedule variable per range statement, independent in the two runs)")
 			det.Budget = 12000000
 			return []*Job{
-				{Name: "sorted-signatures", Pkg: "ti/base", Entry: "VerifSortedSigs", N: n, Budget: 2000000, Reach: []string{"sorted"}, Asserts: []string{"C05-sorted"}, Replay: "kernel", Config: "core",
+				{Name: "sorted-signatures", Pkg: "ti/base", Entry: "VerifSortedSigs", N: n, Budget: 2000000, Reach: []string{"sorted"}, Asserts: []string{"C05-sorted"}, Replay: "kernel", Cross: true, Config: "core",
 					Bound: sprintf("GetSortedTSignatures / GetSortedTSignaturesByClass on a TSignatures map of %d entries whose Method/Class/Frame/IsStatic/Detail are solver variables over 2-element domains (pairwise distinct), arbitrary map iteration order (a solver-chosen permutation at every range statement), two runs compared; the real slices.SortFunc (pdqsort) is interpreted", n)},
 				det,
 			}
